@@ -393,6 +393,28 @@ theorem fontWeight_total (chain : List Node) (hne : chain ≠ [])
           | nil => simp only [ctxOf, rootCtx, h1, h5]; exact v400
           | cons m r => simp only [ctxOf, h1]; exact hrest (by simp)
 
+/-! ## display (CSS 2.1 §9.7) -/
+
+/-- the §9.7 table, value by value, for blockified boxes (root element, floats, absolutely positioned) -/
+theorem specDisplay_table :
+    (allDisplays.filter (fun d => specDisplay true d != d)).map (fun d => (d, specDisplay true d)) =
+    [(("table-caption", "", ""), ("block", "flow", "")), (("table-row-group", "", ""), ("block", "flow", "")),
+     (("table-cell", "", ""), ("block", "flow", "")), (("table-header-group", "", ""), ("block", "flow", "")),
+     (("table-footer-group", "", ""), ("block", "flow", "")), (("table-row", "", ""), ("block", "flow", "")),
+     (("table-column-group", "", ""), ("block", "flow", "")), (("table-column", "", ""), ("block", "flow", "")),
+     (("inline", "flow", ""), ("block", "flow", "")), (("inline", "flow-root", ""), ("block", "flow", "")),
+     (("inline", "table", ""), ("block", "table", "")), (("inline", "flex", ""), ("block", "flex", "")),
+     (("inline", "grid", ""), ("block", "grid", "")),
+     (("inline", "flow", "list-item"), ("block", "flow", "list-item")),
+     (("inline", "flow-root", "list-item"), ("block", "flow", "list-item"))] := by decide +kernel
+
+/-- a blockified box is block-level (or `none`), blockifying twice changes nothing, and nothing is
+    adjusted elsewhere -/
+theorem specDisplay_blockified : (allDisplays.all fun d =>
+    ((specDisplay true d).1 == "block" || d.1 == "none") &&
+    (specDisplay true (specDisplay true d) == specDisplay true d) &&
+    (specDisplay false d == d)) = true := by decide +kernel
+
 /-! ## the generic length traversal (all tuple / list / function valued length computers) -/
 
 /- `computed_is_absolute`: after computing, no em/ex/ch/rem/pt/pc/in/cm/mm/q remains.
